@@ -11,6 +11,10 @@ def spec():
         "Dog": obj(["kind", "name"], {"kind": st, "name": st, "barkVolume": it}),
         "Pet": {"oneOf": [{"$ref": "#/components/schemas/Cat"}, {"$ref": "#/components/schemas/Dog"}],
                 "discriminator": {"propertyName": "kind", "mapping": {"cat": "#/components/schemas/Cat", "dog": "#/components/schemas/Dog"}}},
+        "CardPay": obj(["method", "pan"], {"method": st, "pan": st}),
+        "BankPay": obj(["method", "iban"], {"method": st, "iban": st}),
+        "Pay": {"oneOf": [{"$ref": "#/components/schemas/CardPay"}, {"$ref": "#/components/schemas/BankPay"}],
+                "discriminator": {"propertyName": "method", "mapping": {"credit-card": "#/components/schemas/CardPay", "credit_card": "#/components/schemas/BankPay"}}},
         "Circle": obj(["r"], {"r": it, "label": st}),
         "Square": obj(["side"], {"side": it, "label": st}),
         "Shape": {"oneOf": [{"$ref": "#/components/schemas/Circle"}, {"$ref": "#/components/schemas/Square"}]},
